@@ -11,14 +11,38 @@ from . import props
 from .pyvc import api
 
 
+def one(pid):
+    p = props.PROPS[pid]
+    stable = None
+    for seed in (0, 1):
+        r = api.verify(pid, p['contracts'], 'quick', seed)
+        names = set(x['name'] for x in r['results'] if x['result'] == 'unsat')
+        stable = names if stable is None else (stable & names)
+        print(pid, 'seed', seed, r['obligations'], r['discharged'], r['undecided'],
+              len(r['violations']), r['errors'][:2], file=sys.stderr)
+    print(json.dumps(sorted(stable)))
+
+
 def main():
+    if len(sys.argv) > 1:
+        return one(sys.argv[1])
+    import subprocess
     out = {}
     for pid, p in sorted(props.PROPS.items()):
         if not p.get('contracts'):
             continue
-        stable = None
-        for seed in (0, 1):
-            r = api.verify(pid, p['contracts'], 'quick', seed)
+        # one fresh process per property: the contract registry is process-global
+        r = subprocess.run([sys.executable, '-m', 'vf.mkrequired', pid], capture_output=True,
+                           text=True, cwd=VERIF, env=dict(os.environ, PYTHONPATH=VERIF))
+        sys.stderr.write(r.stderr)
+        out[pid] = json.loads(r.stdout.strip().split('\n')[-1])
+    with open(os.path.join(VERIF, 'vf', 'required.json'), 'w') as f:
+        json.dump(out, f, indent=0)
+    print({k: len(v) for k, v in out.items()})
+    return
+    for pid, p in []:
+        for seed in ():
+            r = None
             names = set(x['name'] for x in r['results'] if x['result'] == 'unsat')
             # table rows are summarised in results: take all discharged tables rows by name
             stable = names if stable is None else (stable & names)
